@@ -29,6 +29,8 @@ func main() {
 		devRun(os.Args[2:])
 	case "check":
 		os.Exit(checkMain(os.Args[2:]))
+	case "replay":
+		os.Exit(replayMain(os.Args[2:]))
 	default:
 		fmt.Fprintln(os.Stderr, "unknown command", os.Args[1])
 		os.Exit(2)
@@ -114,4 +116,55 @@ func loadPkgs() []string {
 		module + "/stdlib/fmt", module + "/stdlib/time", module + "/parser", module + "/internal/verifrt",
 		"unicode/utf8",
 	}
+}
+
+// replayMain replays one witness file natively against the real build.
+func replayMain(args []string) int {
+	if len(args) != 2 {
+		fmt.Fprintln(os.Stderr, "usage: symgo replay <property> <witness.json>")
+		return 2
+	}
+	b, err := os.ReadFile(args[1])
+	if err != nil {
+		fmt.Fprintln(os.Stderr, err)
+		return 2
+	}
+	var w interp.Witness
+	if err := json.Unmarshal(b, &w); err != nil {
+		fmt.Fprintln(os.Stderr, err)
+		return 2
+	}
+	repo := envOr("VERIF_REPO", "/repo")
+	P, err := interp.Load(repo, module, envOr("VERIF_HARNESS", "/verif/harness"), loadPkgs())
+	if err != nil {
+		fmt.Fprintln(os.Stderr, err)
+		return 2
+	}
+	work := fmt.Sprintf("/verif/.work/replay-%d", os.Getpid())
+	defer os.RemoveAll(work)
+	res, log, err := replayNative(P, []*interp.Witness{&w}, work)
+	if err != nil {
+		fmt.Fprintln(os.Stderr, log)
+		fmt.Fprintln(os.Stderr, err)
+		return 2
+	}
+	r := res[0]
+	if r == nil {
+		fmt.Println("no result")
+		return 2
+	}
+	out, _ := json.MarshalIndent(r, "", " ")
+	fmt.Printf("witness: harness=%s event=%s id=%s known=%v\nnative result:\n%s\n", w.Harness, w.Event, w.ID, w.Known, out)
+	for _, f := range r.Fails {
+		if f.ID == w.ID {
+			fmt.Printf("REPRODUCED: assertion %q fails natively\n", w.ID)
+			return 1
+		}
+	}
+	if w.Event == "panic" && r.Panic != "" {
+		fmt.Println("REPRODUCED: panic", r.Panic)
+		return 1
+	}
+	fmt.Println("not reproduced")
+	return 0
 }
